@@ -29,7 +29,14 @@ type fals struct {
 	Class string // finding-key class: method + class name the call site / input class
 	// Apply mutates resp (a response of the method, or *types.LightBlock for
 	// provider-level falsifications); false = not applicable to this response.
+	// For the classes clsSubst / clsRelabel (whole-record substitution, subst.go) the lie depends on what
+	// was asked: resp is then a reqResp carrying the request next to the response.
 	Apply func(r *rand.Rand, cc *chainCtx, resp interface{}) bool
+}
+
+type reqResp struct {
+	rq   *request
+	resp interface{}
 }
 
 func cpb(b []byte) []byte { return append([]byte{}, b...) }
